@@ -1164,21 +1164,22 @@ def randcap(nrand, ra, dec, rad, get_radius=False, dorot=False, rng=None):
         cosr = cos(rand_r)
 
         cospsi = cos(rand_posangle)
+        sinpsi = sin(rand_posangle)
         costheta2 = costheta * cosr + sintheta * sinr * cospsi
 
-        np.clip(costheta2, -1, 1, costheta2)
+        # components of the new point along and across the meridian of the
+        # center.  arctan2 keeps full precision for small radii and for points
+        # that land on a pole, where arccos loses half the digits (and the old
+        # cosDphi was 0/0)
+        xtmp = sintheta * cosr - costheta * sinr * cospsi
+        ytmp = sinr * sinpsi
 
-        # gives [0,pi)
-        theta2 = arccos(costheta2)
-        sintheta2 = sin(theta2)
+        # gives [0,pi]
+        theta2 = arctan2(sqrt(xtmp * xtmp + ytmp * ytmp), costheta2)
 
-        cosDphi = (cosr - costheta * costheta2) / (sintheta * sintheta2)
-
-        np.clip(cosDphi, -1, 1, cosDphi)
-        Dphi = arccos(cosDphi)
-
-        # note fancy usage of where
-        phi2 = np.where(rand_posangle > PI, phi + Dphi, phi - Dphi)
+        # signed longitude difference, positive for position angles below PI
+        Dphi = arctan2(ytmp, xtmp)
+        phi2 = phi - Dphi
 
         np.rad2deg(phi2, phi2)
         np.rad2deg(theta2, theta2)
